@@ -39,3 +39,13 @@ def batch(jobs, k, name_prefix='batch'):
                              params=[1, len(m.params)] + list(m.params), desc=m.desc, bounds=m.bounds, kf=m.kf, kfonly=m.kfonly) for m in ms]
             out.append(b); n += 1
     return out
+
+
+def open_findings(pid):
+    import json
+    p = os.path.join(os.path.dirname(os.path.dirname(os.path.abspath(__file__))), 'known_findings.json')
+    try:
+        k = json.load(open(p))
+    except Exception:
+        return {}
+    return {f['id']: f for f in k.get('findings', []) if f.get('property') == pid}
